@@ -121,5 +121,8 @@ pub fn exec_op(op: &str, a: &serde_json::Value) -> serde_json::Value {
   if let Some(v) = editdoc::exec(op, a) {
     return v;
   }
+  if let Some(v) = checkvar::exec(op, a) {
+    return v;
+  }
   serde_json::json!({"harness_error": format!("op {op} is not replayable stand-alone")})
 }
